@@ -64,6 +64,9 @@ SCRIPTS += [
     # an array that as a whole is one array-valued parameter (instantiated with one ndarray / nested list)
     ["name p15", "version 1.0", "", "float array A[2, 2] =", "    {U}", "Interferometer(A) | [%(m)s, %(m)s]", "Dgate({b}, k=A) | %(m)s", "Vac | %(m)s"],
     ["name p16", "version 1.0", "target X8", "type tdm", "", "complex array W[1, 3] =", "    {w}", "float array B =", "    %(f)s, {b}", "Gate(W, B) | %(m)s"],
+    # several features in one place: a tdm template whose p-arrays hold parameters (as elements and as a whole) next to a numeric p-array
+    ["name p17", "version 1.0", "type tdm (temporal_modes=%(i)s)", "", "float array p0 =", "    {a}, %(f)s, {b}", "float array p1[1, 2] =", "    {w}", "int array p2 =", "    %(i)s, %(i)s",
+     "Rgate(p0) | %(m)s", "Gate(p1, k=p2) | %(m)s", "Dgate({a}, p2) | %(m)s"],
 ]
 OPS = ["dumps", "to_DiGraph", "attributes", "call", "match_as_template", "match_as_program", "dumps_twice", "graph_then_dumps"]
 
